@@ -255,6 +255,11 @@ class Run:
             if ok(a) and ok(b) and not (isinstance(a, Int) and isinstance(b, Int)):
                 r = xor(a, b)
                 return Int(r[1], 8) if r[0] == 'lit' else r
+        # masking the length of dst (at most dst_max <= 255 in the property's domain) with a mask that keeps the low octet
+        if op == 'BitAnd' and b is not None:
+            for x, y in ((a, b), (b, a)):
+                if isinstance(x, tuple) and x and x[0] in ('len', 'lenb') and x[1] == 'dst' and isinstance(y, Int) and (y.v & 0xff) == 0xff and self.dst_max <= 255:
+                    return x
         # comparisons with the length of dst: 0 <= len(dst) <= dst_max
         if b is not None and op in ('Gt', 'Ge', 'Lt', 'Le', 'Eq', 'Ne'):
             for x, y, flip in ((a, b, False), (b, a, True)):
